@@ -110,12 +110,13 @@ Definition failing {A} (f : A -> bool) (l : list A) : list nat := failing_from f
 (* The weights never change along these histories, so what a forward pass returns is determined by the
    activation scales, i.e. by the number of calibration passes so far (the "epoch"); freeze, moves, copies
    and state_dict reloads must change neither the epoch nor anything else observable. *)
-Inductive lop := LForward | LCalibrate | LFreeze | LMove | LCopy | LReload.
+Inductive lop := LForward | LCalibrate | LFreeze | LMove | LCopy | LReload | LConvert.   (* LConvert: model.to(another float dtype) *)
 Record lstate := { l_frozen : bool; l_epoch : nat }.
 Definition lstep (act : bool) (s : lstate) (o : lop) : lstate :=
   match o with
   | LCalibrate => {| l_frozen := l_frozen s; l_epoch := if act then S (l_epoch s) else l_epoch s |}
   | LFreeze => {| l_frozen := true; l_epoch := l_epoch s |}
+  | LConvert => {| l_frozen := l_frozen s; l_epoch := S (l_epoch s) |}   (* every tensor is re-rounded: outputs may change *)
   | _ => s
   end.
 Fixpoint ltrace (act : bool) (s : lstate) (ops : list lop) : list (bool * nat) :=
@@ -124,7 +125,7 @@ Fixpoint ltrace (act : bool) (s : lstate) (ops : list lop) : list (bool * nat) :
   | o :: r => let s' := lstep act s o in (l_frozen s', l_epoch s') :: ltrace act s' r
   end.
 Definition lop_of (z : Z) : lop :=
-  match z with 0 => LForward | 1 => LCalibrate | 2 => LFreeze | 3 => LMove | 4 => LCopy | _ => LReload end%Z.
+  match z with 0 => LForward | 1 => LCalibrate | 2 => LFreeze | 3 => LMove | 4 => LCopy | 5 => LReload | _ => LConvert end%Z.
 Definition fe_eqb (a b : bool * nat) : bool := Bool.eqb (fst a) (fst b) && Nat.eqb (snd a) (snd b).
 (* observed trace vs model trace: the frozen flags agree at every step, and whenever the model says the outputs cannot
    have changed (same epoch as at the previous step) the observed output class is the previous one.  (A calibration
